@@ -4,6 +4,8 @@ import (
 	"bytes"
 	"encoding/hex"
 	"encoding/json"
+	schedulerbindings "github.com/palomachain/paloma/v2/x/scheduler/bindings"
+	schedulerbindingstypes "github.com/palomachain/paloma/v2/x/scheduler/bindings/types"
 
 	sdkmath "cosmossdk.io/math"
 	sdk "github.com/cosmos/cosmos-sdk/types"
@@ -159,7 +161,15 @@ func VerifC17_Jobs() {
 		cctx, commit := env.Ctx.CacheContext()
 		var runErr error
 		var requester []byte
-		if viaContract {
+		if viaContract && in != nil && sym.Bool("through-the-cosmwasm-binding") {
+			// the contract dispatches an execute_job message; its free-form sender field may say anything
+			contract := sdk.AccAddress(sym.Bytes("contract-address", 32))
+			requester = contract
+			claimed := []string{"", contract.String(), c17Other.String(), "not an address"}[sym.Choice("binding-sender-field", 4)]
+			_, _, _, runErr = schedulerbindings.NewMessenger(env.Scheduler, srv).DispatchMsg(cctx, contract, "",
+				schedulerbindingstypes.Message{ExecuteJob: &schedulerbindingstypes.ExecuteJob{JobID: "job1", Sender: claimed, Payload: inBody}})
+			sym.Reach("requested-through-the-binding")
+		} else if viaContract {
 			contract := sdk.AccAddress(sym.Bytes("contract-address", 32))
 			requester = contract
 			_, runErr = env.Scheduler.ExecuteJob(cctx, "job1", in, nil, contract)
